@@ -618,7 +618,20 @@ class TE:
             raise _Continue()
         elif isinstance(st, ast.Try):
             self.exec_block(st.body, env, mod)
-        elif isinstance(st, (ast.Expr, ast.Pass, ast.Assert, ast.With)):
+        elif isinstance(st, ast.Expr):
+            # a statement-level call of a mutating method on a module-level table (COMMANDS.update({...}), LIST.append(x))
+            v = st.value
+            if isinstance(v, ast.Call) and isinstance(v.func, ast.Attribute) and v.func.attr in (
+                    "update", "append", "extend", "add", "pop", "setdefault", "remove", "discard", "clear", "insert", "popitem"):
+                root = v.func.value
+                while isinstance(root, (ast.Attribute, ast.Subscript)):
+                    root = root.value
+                try:
+                    self.ev(v, env, mod)
+                except AnalysisError as ex:
+                    if isinstance(root, ast.Name):
+                        env[root.id] = Unknown(f"{mod}:{st.lineno} {v.func.attr}() not evaluable: {ex}")
+        elif isinstance(st, (ast.Pass, ast.Assert, ast.With)):
             pass
         else:
             pass
@@ -925,11 +938,13 @@ class TE:
                 return ModuleRef(sub)
             raise AnalysisError(f"{mod}:{e.lineno} module {b.name} has no {attr}")
         if isinstance(b, dict):
-            if attr in ("items", "keys", "values", "get", "pop", "copy", "update", "setdefault"):
+            if attr in ("items", "keys", "values", "get", "pop", "copy", "update", "setdefault", "clear", "popitem"):
                 return _Bound(b, attr)
         if isinstance(b, (list, set)):
-            if attr in ("append", "extend", "add", "copy", "remove", "discard"):
+            if attr in ("append", "extend", "add", "copy", "remove", "discard", "pop", "clear", "insert", "update", "index", "count"):
                 return _Bound(b, attr)
+        if isinstance(b, (str, bytes, tuple, frozenset, int, float)) and not isinstance(b, bool) and not attr.startswith("__") and hasattr(b, attr):
+            return _Bound(b, attr)  # pure methods of immutable constants (join, format, upper, to_bytes, index, ...)
         if isinstance(b, ClassRef):
             if attr == "__members__":
                 return b.members()
@@ -1009,6 +1024,19 @@ class TE:
                             "str": str, "bool": bool, "abs": abs, "float": float, "sum": sum, "any": any, "all": all}[n](*args, **kw)
                 except Exception as ex:
                     raise AnalysisError(f"{mod}:{e.lineno} {n}(): {ex}")
+            if f.name in ("builtins.dict.fromkeys",):
+                return dict.fromkeys(list(self.iterate(args[0])), *args[1:])
+            if f.name in ("builtins.int.from_bytes", "builtins.bytes.fromhex", "builtins.str.join", "builtins.bytes.join", "builtins.str.format",
+                          "builtins.divmod", "builtins.round", "builtins.pow", "builtins.ord", "builtins.chr", "builtins.hex", "builtins.repr"):
+                import builtins as _b
+
+                try:
+                    obj = _b
+                    for part in f.name.split(".")[1:]:
+                        obj = getattr(obj, part)
+                    return obj(*args, **kw)
+                except Exception as ex:
+                    raise AnalysisError(f"{mod}:{e.lineno} {f.name}(): {ex}")
             raise AnalysisError(f"{mod}:{e.lineno} builtin {n} not modelled")
         if isinstance(f, FuncRef) and f.cls is None:
             return self.inline(f, args, kw, mod, e)
